@@ -90,7 +90,7 @@ class FortranRegularExpressions:
         r"POINTER|TARGET|DIMENSION[ ]*\(|"
         r"OPTIONAL|INTENT[ ]*\([ ]*(?:IN|OUT|IN[ ]*OUT)[ ]*\)|DEFERRED|NOPASS|"
         r"PASS[ ]*\([ ]*\w*[ ]*\)|SAVE|PARAMETER|EXTERNAL|"
-        r"CONTIGUOUS)",
+        r"CONTIGUOUS|VALUE|VOLATILE|PROTECTED|ASYNCHRONOUS)",
         I,
     )
     PARAMETER_VAL: Pattern = compile(r"\w*[\s\&]*=(([\s\&]*[\w\.\-\+\*\/\'\"])*)", I)
